@@ -62,6 +62,9 @@ pub enum Op {
     Restart { tick: u32, peer: u8 },
     /// the next packet of wire class `class` (sim::wire::Class) sent on the directed link is lost
     DropNext { tick: u32, from: u8, to: u8, class: u8 },
+    /// every packet of wire class `class` sent on the directed link during the next `len_ms` is lost (the other
+    /// classes - keep-alives, quality reports, acknowledgements - get through: the peer is alive but e.g. silent)
+    DropClass { tick: u32, from: u8, to: u8, class: u8, len_ms: u32 },
 }
 
 impl Op {
@@ -79,6 +82,7 @@ impl Op {
             | Op::Slow { tick, .. }
             | Op::Restart { tick, .. }
             | Op::DropNext { tick, .. }
+            | Op::DropClass { tick, .. }
             | Op::Misuse { tick, .. } => *tick,
             Op::Corrupt { .. } => 0,
         }
